@@ -31,7 +31,7 @@ DEFAULTS = {"max_arity": 255, "bounded": "false", "integer_rounding_function": "
 JUNK = ["foo", 1, VAR, "on", ("list", ["foo"])]
 NONFLAGS = ["foo", 1, VAR]
 DEPTH = {"quick": 3, "thorough": 6}
-NSHARDS = 8
+NSHARDS = 1   # the whole space is 81 states: one shard keeps the state count exact
 RULE = ("explicit-state search: transitions set_prolog_flag(F,V), F in every flag the enumeration yields (max_arity, bounded, "
         "integer_rounding_function, double_quotes, unknown, occurs_check, answer_write_options) + {max_integer, min_integer, foo, 1, _}, "
         "V in the flag's documented domain + {foo, 1, _, on, [foo]}; BFS from the default flags to depth 3 (quick) / 6 = closure "
@@ -45,8 +45,8 @@ ASSUMPTIONS = ["driver transport (case texts contain no double-quoted strings an
                "read-only flags: failure or any error is accepted as 'cannot be changed'; success only with the current value",
                "ISO 8.17.1.3: invalid value -> domain_error(flag_value, Flag+Value); unknown flag -> domain_error(prolog_flag, F); "
                "non-atom flag -> type_error(atom, F); variables -> instantiation_error",
-               "unknown=warning is not probed behaviourally: the machine prints its warning with println! on the process's real "
-               "stdout, which is the worker's protocol channel (value read-back is still checked)"]
+               "unknown=warning is observed as 'the call fails'; the warning text (printed with println! on the process's real "
+               "stdout, skipped by the worker pool as a stray line) is not compared"]
 MIN_OUTCOMES = 4
 
 
@@ -241,9 +241,9 @@ def check_inspection(state, insp):
     got_oc = "error" if isinstance(o, tuple) else o
     if got_oc != want_oc:
         out.append(("probe occurs_check=%s" % terms.show(sd.get("occurs_check")), "X = f(X): %s" % want_oc, terms.show(oc)))
-    o = outcome_of(un) if un != "skipped" else "skipped"
-    want_un = {"error": "error:existence_error(procedure)", "fail": "false", "warning": "skipped"}.get(sd.get("unknown"))
-    if (o if isinstance(o, str) and o == "skipped" else oc_text(o)) != want_un:
+    o = outcome_of(un)
+    want_un = {"error": "error:existence_error(procedure)", "fail": "false", "warning": "false"}.get(sd.get("unknown"))
+    if oc_text(o) != want_un:
         out.append(("probe unknown=%s" % terms.show(sd.get("unknown")), "calling an undefined predicate: %s" % want_un, terms.show(un)))
     return out
 
